@@ -31,7 +31,7 @@ RULE = ("per operation (3 generators, 6 smoothers, initial plate, combination fi
         " PIPELINE stream (op `pipeline`, evidence `pipeline.*`): the real cli/prepare_retrospective_simulation.main() on small saved screens, "
         "36 option combinations per quick run (all generator x smoother pairs, 8 targeted initial-generator combinations; all 3x4x7 in the thorough "
         "tier), one recording generator injected through get_prng_from_seed_argument, stage markers around the initial generator / generator / "
-        "smoother / hold-out, outputs read with h5py and compared with Model/PrepPipeline.lean; end-to-end oracles on the files (conservation vs a "
+        "smoother / hold-out, outputs read with h5py by dataset name (tie knowledge: on any raw-access error `layout.unexpected` + tie and fall back to Screen.load_h5) and compared with Model/PrepPipeline.lean; end-to-end oracles on the files (conservation vs a "
         "reference combination filter, test fully observed + per-plate counts, shared mappings, initial plate covers, single-sample unobserved plates)."
         " CHECKLIST items 10-14: every operation also runs on 5 same-size TEMPORARY screens built so that the next screen gets the freed "
         "address (id() collision observed and counted), then on the input; history cases call op(x, other seed) before op(x, seed) and compare "
@@ -39,7 +39,12 @@ RULE = ("per operation (3 generators, 6 smoothers, initial plate, combination fi
         ">= 257 generated plates, hold-out from a plate of 255-257 rows, a 257-260 row / >= 128 treatment-id screen through load -> main -> save; "
         "--holdout-fraction omitted / 0.05 / 0.25. Oracles fire only for clauses of the property text; everything else the harness pins down (row order, "
         "plate labels of the input relabelled in place, reused-vs-fresh differences, id bookkeeping, PYTHONHASHSEED dependence, mappings, which plates a "
-        "size smoother retains) is a tie with the model (no replay).")
+        "size smoother retains) is a tie with the model (no replay)."
+        " CHECKLIST items 18-19: the pipeline stream IS the real entry point of every stage of this property (prepare_retrospective_simulation.main()); its "
+        "oracles also look at what each stage RECEIVED from the glue (loaded screen, filtered screen = reference combination filter incl. multi-dose single "
+        "agents, the screen / generator / fraction / plugin parameters reaching the initial generator, generator, smoother and hold-out) and the files; "
+        "~15 % of the cases of both streams (and the boundary families) run under vlib.common.verbose_logging() (+ --verbose for main()) with \"verbose\": true in the "
+        "case, same oracles, and are compared with the quiet run (difference alone = tie); input files with NaN / +-inf / -0.0 observation values.")
 
 
 def run(ctx, res):
